@@ -19,6 +19,7 @@ type versEvent struct {
 	Text   string      `json:"text"`
 	Base   string      `json:"base"`
 	Cs     jsonRaw     `json:"cs"`
+	PrePos []int       `json:"prepos"`
 	Probes []versProbe `json:"probes"`
 	Panics []string    `json:"panics"`
 }
@@ -34,7 +35,10 @@ func init() {
 		var probes []versProbe
 		_ = jsonUnmarshal(j["probes"], &probes)
 		ev := versEvent{K: "vers", Scheme: j.str("scheme"), Tag: j.str("tag"), Text: j.str("text"), Base: j.str("base"),
-			Cs: jsonRaw(j["cs"]), Probes: probes, Panics: []string{}}
+			Cs: jsonRaw(j["cs"]), PrePos: j.ints("prepos"), Probes: probes, Panics: []string{}}
+		if ev.PrePos == nil {
+			ev.PrePos = []int{}
+		}
 		if ev.Cs == nil {
 			ev.Cs = jsonRaw("[]")
 		}
